@@ -114,6 +114,12 @@ Fixpoint strict_prefixb (a b : list str) : bool :=
 Definition inside (proj q : path) : bool :=
   str_eqb (p_root proj) (p_root q) && strict_prefixb (p_parts proj) (p_parts q).
 
+(* what pathlib guarantees of a parsed path: the root is one of the three, and no
+   part is empty, a single dot, or contains a slash (used only in statements) *)
+Definition good_part (x : str) : Prop := x <> [] /\ x <> [dot] /\ ~ In slash x.
+Definition wf_path (p : path) : Prop :=
+  (p_root p = [] \/ p_root p = [slash] \/ p_root p = [slash; slash]) /\ Forall good_part (p_parts p).
+
 (* ---------------------------------------------------------------- Project *)
 (* a constructor argument that may be a str or a pathlib.Path built from a str *)
 Inductive parg := PStr (s : str) | PPath (s : str).
@@ -156,6 +162,9 @@ Definition mk_project (cwd : path) (a : ctor_args) : project :=
 (* get_default_project sets _django on the object after construction *)
 Definition set_django (d : bool) (p : project) : project :=
   mkproject (pr_path p) (pr_env p) (pr_sys_path p) (pr_smart p) (pr_unsafe p) d (pr_added p).
+
+Definition set_path (q : path) (p : project) : project :=
+  mkproject q (pr_env p) (pr_sys_path p) (pr_smart p) (pr_unsafe p) (pr_django p) (pr_added p).
 
 (* the JSON object written by Project.save (second element of the [version, data] pair) *)
 Record json := mkjson {
